@@ -9,6 +9,7 @@ CONSTANTS
  CheckTs = {25, 40}
  Concurrent = TRUE
  Dev = {}
+ Orders = "all"
  PlanMax = 0
  MaxHist = 0
 VIEW view
